@@ -1,1 +1,2 @@
 //! reference models (independent of kira's code)
+pub mod playback;
